@@ -519,14 +519,10 @@ Definition agrees (c : case) : bool :=
   eqb_list eqb_cred tried (o_evpw c) && o_attr c &&
   if ok then
     let relayed := ssh_relay (client_msgs c) [] in
-    (* the relay stops at the client's EOF: requests without reply that the client sent just before
-       it may or may not have been forwarded by then (timing) *)
-    (if z_halfclose c then prefix_list eqb_smsg (o_breqs c) (reqs_of relayed)
-     else eqb_list eqb_smsg (reqs_of relayed) (o_breqs c)) && eqb_bytes (data_of relayed) (o_bdata c) &&
+    eqb_list eqb_smsg (reqs_of relayed) (o_breqs c) && eqb_bytes (data_of relayed) (o_bdata c) &&
     eqb_bytes (o_cdata c) (d_down (ssh_duplex (sched c))) && eqb_bytes (o_bdata c) (d_up (ssh_duplex (sched c))) &&
     eqb_list Bool.eqb (o_replies c) (want_replies (z_reqs c)) &&
-    (if z_halfclose c then prefix_list eqb_bytes (o_evreqs c) (req_types (z_reqs c))
-     else eqb_list eqb_bytes (req_types (z_reqs c)) (o_evreqs c)) && (o_evchan c =? 1)%N && (o_evsess c =? 1)%N &&
+    eqb_list eqb_bytes (req_types (z_reqs c)) (o_evreqs c) && (o_evchan c =? 1)%N && (o_evsess c =? 1)%N &&
     (if z_texty c && eqb_bytes (o_cdata c) (concat (z_reply c)) then eqb_bytes (o_rec c) (sanitize (concat (z_reply c))) else true)
   else
     match o_breqs c, o_bdata c, o_cdata c, o_evreqs c with
@@ -544,7 +540,7 @@ Definition SIG_EVENT := 5%N.
 Definition SIG_CONNS := 6%N.
 Definition SIG_STATUS := 7%N.
 Definition SIG_REPLY_RACE := 9%N.     (* the client was never told the outcome of a request the backend answered right before closing the channel (repaired: e6ccfa1) *)
-Definition SIG_HALFCLOSE := 10%N.     (* the client ended its direction, what the backend wrote afterwards did not reach it *)
+Definition SIG_HALFCLOSE := 10%N.     (* the client ended its direction, what the backend wrote afterwards (or requests it had sent before) did not arrive (repaired: 3aa99de) *)
 Definition SIG_TRUNCATED := 8%N.      (* the client received only a proper prefix of the backend's channel data / request replies (repaired: fc51d79) *)
 
 (* the property on the observation: the backend sees the presented credentials, attempt
@@ -617,26 +613,15 @@ Record case := mkX {
 
 Definition same (d : bytes) (n : N) (h : hash) : bool := (N.of_nat (length d) =? n)%N && eqh (fnv d) h.
 
-(* the client still writes after the relay has stopped (the backend ended its direction
-   first): the proxy closes a socket with unread input, the kernel answers with a reset, and
-   a reset also discards what the client had not yet read - how much is timing *)
-Fixpoint after_beof (l : list dev) : list dev :=
-  match l with [] => [] | DBEof :: r => r | _ :: r => after_beof r end.
-Definition writes_into_closed (l : list dev) : bool :=
-  match ups (after_beof l) with [] => false | _ => true end.
-
 Definition agrees (c : case) : bool :=
-  let l := map dev_of (x_sched c) in
-  let s := copy_duplex l in
-  same (d_up s) (o_uplen c) (o_uph c) &&
-  (if writes_into_closed l then (o_downlen c <=? N.of_nat (length (d_down s)))%N
-   else same (d_down s) (o_downlen c) (o_downh c) && Bool.eqb (d_ceof s) (o_ceof c)) &&
-  Bool.eqb (d_beof s) (o_beof c) && (o_events c =? 1)%N && (o_dials c =? 1)%N.
+  let s := copy_duplex (map dev_of (x_sched c)) in
+  same (d_up s) (o_uplen c) (o_uph c) && same (d_down s) (o_downlen c) (o_downh c) &&
+  Bool.eqb (d_beof s) (o_beof c) && Bool.eqb (d_ceof s) (o_ceof c) && (o_events c =? 1)%N && (o_dials c =? 1)%N.
 
 Definition mismatches (cs : list case) : list N := map x_id (filter (fun c => negb (agrees c)) cs).
 
 Definition SIG_DOWN_LOST := 1%N.    (* what the backend wrote did not all reach the client (the client's direction had ended / was slow) *)
-Definition SIG_UP_LOST := 2%N.      (* what the client wrote did not all reach the backend (the backend's direction had ended) *)
+Definition SIG_UP_LOST := 2%N.      (* what the client wrote did not all reach the backend (the backend's direction had ended; repaired: 79a1675) *)
 Definition SIG_CHANGED := 3%N.
 Definition SIG_EVENT := 4%N.
 Definition SIG_EOF_NOT_FORWARDED := 5%N.   (* the client ended its direction, the backend never saw it *)
@@ -646,9 +631,7 @@ Definition SIG_EOF_NOT_FORWARDED := 5%N.   (* the client ended its direction, th
 Definition case_sigs (c : case) : list N :=
   let l := map dev_of (x_sched c) in
   (if same (downs l) (o_downlen c) (o_downh c) then []
-   else if (o_downlen c <? N.of_nat (length (downs l)))%N
-        then (if writes_into_closed l then [] else [SIG_DOWN_LOST])     (* else: a consequence of SIG_UP_LOST, reported there *)
-        else [SIG_CHANGED])
+   else if (o_downlen c <? N.of_nat (length (downs l)))%N then [SIG_DOWN_LOST] else [SIG_CHANGED])
   ++ (if same (ups l) (o_uplen c) (o_uph c) then []
       else if (o_uplen c <? N.of_nat (length (ups l)))%N then [SIG_UP_LOST] else [SIG_CHANGED])
   ++ (if existsb (fun e => match e with XCEof => true | _ => false end) (x_sched c) && negb (o_beof c) then [SIG_EOF_NOT_FORWARDED] else [])
